@@ -35,9 +35,9 @@ COMPONENTS = {
     "real": ["eolib.protocol.protocol_enum_meta.ProtocolEnumMeta", "generated enum modules (real generator run per tree)", "enum.IntEnum of the interpreter"],
     "stub_or_harness": ["construction-history generator", "registry snapshot oracle"],
 }
-PROBES = ["bool_or_int_subclass_argument", "declared_negative_ordinal", "keyword_call_form", "exhaustive_switch_carrier", "warnings_as_errors", "in_flow_read_then_write", "declared", "unknown", "unknown_repeated", "instance_passed_back", "negative", "huge", "none_member",
+PROBES = ["two_constructing_threads_interleaved", "bool_or_int_subclass_argument", "declared_negative_ordinal", "keyword_call_form", "exhaustive_switch_carrier", "warnings_as_errors", "in_flow_read_then_write", "declared", "unknown", "unknown_repeated", "instance_passed_back", "negative", "huge", "none_member",
           "boundary_252_253", "unknown_then_declared_same_class"]
-FAULT_KINDS = ["unknown_ordinal"]
+FAULT_KINDS = ["preemption_between_lines", "unknown_ordinal"]
 SHRINK_KEYS = ["ops"]
 
 HANDWRITTEN = [
@@ -158,7 +158,57 @@ def generate(streams, tier):
         ops.insert(prng.randrange(len(ops) + 1),
                    [prng.randrange(64), "carrier", [prng.choice(["d", "d", "n", "s", "r"]) for _ in range(prng.randrange(1, 8))],
                     prng.randrange(1 << 30)])
-    return {"tree": tree, "ops": ops, "warnings_as_errors": prng.random() < 0.3}
+    plan = {"tree": tree, "ops": ops, "warnings_as_errors": prng.random() < 0.3}
+    if prng.random() < 0.05:
+        # two caller threads construct enum values at the same time (sim/interleave.py)
+        plan["interleave"] = [prng.randrange(1, 9) for _ in range(prng.randrange(4, 80))]
+    return plan
+
+
+def concurrent_constructions(plan, classes, res, tr):
+    """The plan's plain constructions, made by two caller threads at the same time under a scheduled interleaving:
+    each must get, construction by construction, what a single caller gets."""
+    from ..interleave import Interleaver, InterleaveStall
+    todo = []
+    for op in plan["ops"]:
+        cls, declared, _ = classes[op[0] % len(classes)]
+        ords = sorted(declared)
+        if op[1] == "declared":
+            todo.append((cls, ords[op[2] % len(ords)]))
+        elif op[1] == "neighbour":
+            todo.append((cls, ords[op[2] % len(ords)] + op[3]))
+        elif op[1] == "value":
+            todo.append((cls, op[2]))
+    todo = todo[:120]
+    if not todo:
+        return None
+
+    def caller():
+        seen = []
+        for cls, n in todo:
+            try:
+                x = cls(n)
+                seen.append((type(x) is cls, x.name, int(x), x is getattr(cls, x.name, None) if not x.name.startswith("Unrecognized") else None))
+            except Exception as e:  # noqa
+                seen.append(("raised", type(e).__name__))
+        return seen
+
+    alone = caller()
+    il = Interleaver(plan["interleave"], lambda filename: "eolib-verif-" in filename)
+    try:
+        results, errors = il.run(caller, caller)
+    except InterleaveStall as e:
+        return ("concurrent-constructions", f"two caller threads constructing enum values did not both finish: {e}")
+    res.count("probe.two_constructing_threads_interleaved")
+    res.count("fault.preemption_between_lines", il.switches)
+    tr.ev("interleave", il.switches, tuple(il.lines))
+    for i in (0, 1):
+        if errors[i] is not None or results[i] != alone:
+            k = next((j for j, (a, b) in enumerate(zip(results[i] or [], alone)) if a != b), None)
+            what = f"{todo[k][0].__name__}({todo[k][1]}) gave {results[i][k]}, alone {alone[k]}" if k is not None else repr(errors[i])
+            return ("concurrent-constructions", f"caller thread {i} constructing enum values while another thread did the same: {what} "
+                                                f"(schedule {plan['interleave'][:12]}..., {il.switches} switches)")
+    return None
 
 
 class _Tile(int):
@@ -399,6 +449,10 @@ def _execute(plan, env):
                 break
         if res.violation:
             break
+    if plan.get("interleave") and res.violation is None:
+        v = concurrent_constructions(plan, classes, res, tr)
+        if v:
+            fail(v[0], v[1], len(plan["ops"]))
     if res.evaluations == 0:
         res.evaluations = 1
     res.digest = tr.digest()
@@ -496,4 +550,4 @@ LEVEL_TEXT = (
     "proof; no fault or nondeterminism is involved beyond the order of constructions."
 )
 LEVEL_NOTE = "Trusted: the interpreter's enum module. Inputs are ints and previously returned instances only."
-TECHNIQUE = "deterministic seeded history simulation over process-global enum registries with snapshot invariants"
+TECHNIQUE = "deterministic seeded history simulation over process-global enum registries with snapshot invariants; two caller threads under a seeded line-level scheduler"
